@@ -14,14 +14,25 @@ REGISTRATION = {
             "pending, every holder a finish event in flight). all_answered (good variant): in every reachable state "
             "in which nothing internal is enabled, no load is in flight and every request holding a runner has finished, the "
             "pending loop is idle and nothing is queued, i.e. every accepted request has its single reply or was skipped as "
-            "already cancelled (a pending loop waiting for an unload event always gets one). Fairness (that such states are "
-            "reached) is outside the model and covered by end-of-trace monitors on the real scheduler (unanswered / not drained "
+            "already cancelled (a pending loop waiting for an unload event always gets one). Both liveness theorems are instantiated on non-trivial reachable stuck "
+            "states (one request with keep-alive expiry; two models with OLLAMA_MAX_LOADED_MODELS=1 and a wait for the victim's "
+            "unload). They are theorems of the base model with UNBOUNDED event channels: the bounded model (Model/SchedChan.lean: "
+            "capacity OLLAMA_MAX_QUEUE for all four channels, sends made while holding mutexes, loadedMu/refMu acquisition order, "
+            "parameters regenerated from the source) refines the base model (all safety theorems carry over) and exhibits the "
+            "deadlocks the base model cannot: F12d (known finding on the current tree: with OLLAMA_MAX_QUEUE=1 expireRunner parks "
+            "on the full expiredCh holding loadedMu+refMu, a counterexample to the liveness clause), upstream's lock-order "
+            "inversion F12c (refuted for the tree's order: no hold-and-wait on loadedMu in any reachable state), and the "
+            "never-drained unloadedCh class (with the idle receive the parked send is always released). Fairness (that stuck states "
+            "are reached) is outside the model and covered by end-of-trace monitors on the real scheduler (unanswered / not drained "
             "/ deadlock).",
     "design_ref": "DESIGN.md §5 C01/C02/C11",
-    "note": COMMON_NOTE + "Outside the model: preemption inside a locked region, lock-order inversion, channel capacities of "
-            "finishedReqCh/expiredCh/unloadedCh, real timers, unloadAllRunners at shutdown, the cuda VRAM-recovery poller.",
+    "note": COMMON_NOTE + "unloadAllRunners at shutdown is modelled separately (Properties/C02Shutdown.lean: every started runner has had "
+            "exactly one Close() right after it; witnesses: it closes runners in use, and a late expired event closes a second time) "
+            "and is not driven on the real code. Outside the model: preemption inside a locked region, real timers, the cuda "
+            "VRAM-recovery poller, the unbuffered hand-over on successCh (monitor c02-deadlock-handover), updateFreeSpace's per-runner "
+            "refMu acquisitions; drain/all_answered are not lifted to the bounded model (F12d refutes them there for tiny queues).",
 }
-MODULES = ["OllamaVerif.Properties.C02", "OllamaVerif.Properties.C02Drain", "OllamaVerif.Tie.C01"]
+MODULES = ["OllamaVerif.Properties.C02", "OllamaVerif.Properties.C02Drain", "OllamaVerif.Properties.C02Live", "OllamaVerif.Properties.C02Shutdown", "OllamaVerif.Properties.C02Chan", "OllamaVerif.Tie.C01"]
 THEOREMS = [
     "OllamaVerif.C02.at_most_one_reply",
     "OllamaVerif.C02.reply_is_runner_xor_error",
@@ -40,6 +51,32 @@ THEOREMS = [
     "OllamaVerif.Tie.C01.submit_never_blocks",
     "OllamaVerif.Tie.C01.wait_unload_is_pure",
     "OllamaVerif.Tie.C01.expired_region_is_atomic",
+    "OllamaVerif.C02.drained_state_is_stuck",
+    "OllamaVerif.C02.drained_state_reachable",
+    "OllamaVerif.C02.drain_instance",
+    "OllamaVerif.C02.evicted_state_is_stuck",
+    "OllamaVerif.C02.evicted_state_reachable",
+    "OllamaVerif.C02.all_answered_instance",
+    "OllamaVerif.C02.stuck_but_unanswered_when_holder_runs",
+    "OllamaVerif.C02.dropped_witness",
+    "OllamaVerif.C02Shutdown.shutdown_closes_every_started_runner",
+    "OllamaVerif.C02Shutdown.shutdown_closes_runner_in_use",
+    "OllamaVerif.C02Shutdown.shutdown_then_expiry_closes_twice",
+    "OllamaVerif.C02Chan.stepB_refines",
+    "OllamaVerif.C02Chan.bounded_at_most_one_reply",
+    "OllamaVerif.C02Chan.F12d_expiredCh_capacity_wedges",
+    "OllamaVerif.C02Chan.F12d_needs_full_channel",
+    "OllamaVerif.C02Chan.no_idle_drain_wedges",
+    "OllamaVerif.C02Chan.idle_drain_releases",
+    "OllamaVerif.C02Chan.F12c_lock_order_wedges_upstream",
+    "OllamaVerif.C02Chan.F12c_repo_order_refuses",
+    "OllamaVerif.C02Chan.repo_no_hold_and_wait_on_loadedMu",
+    "OllamaVerif.C02Chan.parked_unloaded_send_is_released",
+    "OllamaVerif.Tie.C01.tree_no_hold_and_wait_on_loadedMu",
+    "OllamaVerif.C02Chan.reachB_reach",
+    "OllamaVerif.Tie.C01.tree_cfg_repo",
+    "OllamaVerif.Tie.C01.chan_caps_are_max_queue",
+    "OllamaVerif.Tie.C01.send_sites_match",
 ]
 
 
